@@ -90,27 +90,62 @@ class Obj:
     """One real playing-phase object plus its mode."""
 
     def __init__(self, o: int, mode: str, me: int, deal, trump: int, decl: int,
-                 redeal: bool = False):
+                 redeal: bool = False, pbn: bool = False):
         (Bid, Card, Contract, Hands, Obs, Pair, Player, PP, PPH, Suit,
          Vul) = _imports()
         self.o, self.mode, self.me = o, mode, me
+        self.caller = None
+        self.orig = [sorted(h) for h in deal] if mode == 'hands' else sorted(deal[me]) if mode == 'obs' else None
         contract = make_contract(trump, decl, 1 + (o + trump + decl) % 7)
         if mode == 'plain':
             self.obj = PP(contract)
+        elif mode == 'hands' and pbn:
+            # the deal arrives as PBN text (a board file) that was read before in
+            # this process - for the other table of the match, where the opening
+            # lead has already been made on the object read then
+            text = make_hands(deal).to_pbn()
+            first = Hands.convert_pbn(text)
+            other_table = PPH(contract, first)
+            lead = sorted(deal[(decl + 1) % 4])[0]
+            other_table.play_card_by_player(card(lead), Player((decl + 1) % 4 + 1))
+            h = Hands.convert_pbn(text)
+            self.caller = h
+            self.obj = PPH(contract, h)
         elif mode == 'hands' and redeal:
             # a Hands object that is re-dealt: made for another deal, its four
             # public seat attributes assigned afterwards
             other = [sorted(deal[(k + 1) % 4]) for k in range(4)]
             h = make_hands(other)
             h.north, h.east, h.south, h.west = [{card(c) for c in deal[k]} for k in range(4)]
+            self.caller = h
             self.obj = PPH(contract, h)
         elif mode == 'hands':
-            self.obj = PPH(contract, make_hands(deal))
+            self.caller = make_hands(deal)
+            self.obj = PPH(contract, self.caller)
         else:
-            self.obj = Obs(contract, Player(me + 1), {card(c) for c in deal[me]})
+            self.caller = {card(c) for c in deal[me]}
+            self.obj = Obs(contract, Player(me + 1), self.caller)
 
     def proj(self):
         return project(self.obj, self.mode)
+
+    def caller_state(self, p) -> Optional[str]:
+        """The Hands object / hand set the CALLER handed over: an implementation
+        may play on it (it then tracks the remaining hands) or on a copy of its
+        own (it then stays the original deal) - but not one and then the other."""
+        if self.caller is None:
+            return None
+        try:
+            if self.mode == 'hands':
+                Player = _imports()[6]
+                now = [cards_sorted(self.caller[pl]) for pl in Player]
+                return 'tracks' if now == p['hands'] else 'original' if now == self.orig else 'neither'
+            if self.mode == 'obs':
+                now = cards_sorted(self.caller)
+                return 'tracks' if now == p['own'] else 'original' if now == self.orig else 'neither'
+        except Exception:  # noqa
+            return 'neither'
+        return None
 
 
 def ev_new(tid, ob: Obj, deal, trump, decl) -> Dict[str, Any]:
@@ -163,6 +198,9 @@ def ev_play(tid, ob: Obj, seat: int, c: int, via: str = 'by_player',
         e['msg'] = why
     else:
         e.update(after)
+        cs = ob.caller_state(after) if not fork else None
+        if cs is not None:
+            e['caller'] = cs
     return e
 
 
@@ -252,7 +290,8 @@ def board_trace(job) -> List[Dict[str, Any]]:
     r = rng('board', sd, tid)
     evs: List[Dict[str, Any]] = []
     man = Obj(0, 'hands', NOSEAT, deal, trump, decl,
-              redeal=(sum(map(ord, tid)) + trump + decl) % 4 == 0)
+              redeal=(sum(map(ord, tid)) + trump + decl) % 4 == 0,
+              pbn=(sum(map(ord, tid)) + trump + decl) % 4 == 2 and all(len(h) == 13 for h in deal))
     evs.append(ev_new(tid, man, deal, trump, decl))
     plain = Obj(1, 'plain', NOSEAT, deal, trump, decl)
     evs.append(ev_new(tid, plain, deal, trump, decl))
@@ -279,6 +318,7 @@ def board_trace(job) -> List[Dict[str, Any]]:
             import copy
             import pickle
             for o_ in [man, plain] + obs:
+                o_.caller = None      # the copy has no caller-side object
                 try:
                     o_.obj = copy.deepcopy(o_.obj) if hsum % 2 else pickle.loads(pickle.dumps(o_.obj))
                 except Exception:  # noqa
@@ -589,7 +629,7 @@ def owners(clause: str, event: Optional[Dict[str, Any]] = None) -> set:
         own.add('C04')
     if fails & {'leader', 'active', 'tricknum', 'taken', 'hist', 'done', 'contract'}:
         own.add('C04')
-    if fails & {'result', 'unchanged', 'hands', 'used', 'own', 'dummy-hand'}:
+    if fails & {'result', 'unchanged', 'hands', 'used', 'own', 'dummy-hand', 'caller-hands'}:
         own.add('C05')
     if ev == 'play' and parts.get('exp') != parts.get('got'):
         own.add('C05')
@@ -693,7 +733,13 @@ def run_into(chk: Check, pid: str, tier: str) -> None:
         jobs.append((f'p{k}', dl, r.randrange(5), r.randrange(4), None,
                      styles[k % 4], sd, True, True))
 
-    traces = pmap(board_trace, jobs, chunk=4)
+    # the same boards in an interpreter that strips assert statements (-O)
+    from .core import run_optimized
+    ojobs = [(('O' + j[0]),) + tuple(j[1:]) for j in jobs[:6 if quick else 60]]
+    otraces = run_optimized('harness.play', 'board_trace', ojobs)
+    chk.extra['boards_under_python_O'] = len(ojobs)
+    traces = pmap(board_trace, jobs, chunk=4) + otraces
+    jobs = jobs + ojobs
     events: List[Dict[str, Any]] = []
     for evs in traces:
         events.extend(evs)
